@@ -4,6 +4,7 @@
 package fx
 
 import (
+	"reflect"
 	"sync/atomic"
 	"encoding/json"
 	"context"
@@ -443,4 +444,67 @@ func GoLoopBad(keys []string, send func(*req)) {
 		r.Key = k
 		go func() { send(r) }()
 	}
+}
+
+// ---- kind-restricted reflect accessors ----
+
+func ReflectOk(k interface{}) uint64 {
+	v := reflect.ValueOf(k)
+	switch v.Kind() {
+	case reflect.Int8, reflect.Int16:
+		return uint64(v.Int())
+	case reflect.Uint8, reflect.Uint16:
+		return v.Uint()
+	case reflect.Ptr, reflect.Map:
+		return uint64(v.Pointer())
+	}
+	if v.Kind() == reflect.Float64 {
+		return uint64(v.Float())
+	}
+	return 0
+}
+
+func ReflectBad(k interface{}) uint64 {
+	v := reflect.ValueOf(k)
+	switch v.Kind() {
+	case reflect.Uint8, reflect.Uint16:
+		return uint64(v.Int())
+	}
+	return 0
+}
+
+func ReflectUnguarded(k interface{}) uint64 { return reflect.ValueOf(k).Uint() }
+
+// ---- recover() must report the failure ----
+
+func RecoverOk(act func() ([]byte, error)) (ret []byte, err error) {
+	defer func() {
+		if r := recover(); r != nil {
+			ret, err = nil, fmt.Errorf("panicked: %v", r)
+		}
+	}()
+	return act()
+}
+
+func RecoverBad(act func() ([]byte, error)) ([]byte, error) {
+	var (
+		ret []byte
+		err error
+	)
+	defer func() {
+		if r := recover(); r != nil {
+			err = fmt.Errorf("panicked: %v", r)
+		}
+	}()
+	ret, err = act()
+	return ret, err
+}
+
+func RecoverRepanics(act func() ([]byte, error)) ([]byte, error) {
+	defer func() {
+		if r := recover(); r != nil {
+			panic(r)
+		}
+	}()
+	return act()
 }
